@@ -560,6 +560,14 @@ class ValidateTool(BaseTool):
             validator = Validator(schema=schema_def)
             validation_errors = validator.validate(doc, strict=strict_mode, section_schemas=section_schemas)
 
+            # Issue #190: severity="warning" entries (UNKNOWN_FIELDS::WARN) are advisory:
+            # they are reported as warnings and never make the document INVALID.
+            advisory_entries = [err for err in validation_errors if err.severity == "warning"]
+            validation_errors = [err for err in validation_errors if err.severity != "warning"]
+            result["warnings"].extend(
+                {"code": err.code, "message": err.message, "field": err.field_path} for err in advisory_entries
+            )
+
             if validation_errors:
                 # Convert errors to dicts for reporting
                 error_dicts = [
